@@ -27,7 +27,7 @@ pub(crate) struct XPubSubscriber {
 }
 
 pub(crate) struct XPubSocketBackend {
-    subscribers: scc::HashMap<PeerIdentity, XPubSubscriber>,
+    subscribers: Arc<scc::HashMap<PeerIdentity, XPubSubscriber>>,
     fair_queue_inner: Arc<Mutex<QueueInner<ZmqFramedRead, PeerIdentity>>>,
     socket_monitor: Mutex<Option<mpsc::Sender<SocketEvent>>>,
     socket_options: SocketOptions,
@@ -114,7 +114,7 @@ impl MultiPeerBackend for XPubSocketBackend {
 
     fn peer_disconnected(&self, peer_id: &PeerIdentity) {
         log::info!("Client disconnected {:?}", peer_id);
-        self.subscribers.remove_sync(peer_id);
+        crate::util::remove_peer_entry(&self.subscribers, peer_id);
         self.fair_queue_inner.lock().remove(peer_id);
     }
 }
@@ -210,7 +210,7 @@ impl Socket for XPubSocket {
     fn with_options(options: SocketOptions) -> Self {
         let mut fair_queue = FairQueue::new(true);
         let backend = Arc::new(XPubSocketBackend {
-            subscribers: scc::HashMap::new(),
+            subscribers: Arc::new(scc::HashMap::new()),
             fair_queue_inner: fair_queue.inner(),
             socket_monitor: Mutex::new(None),
             socket_options: options,
